@@ -301,7 +301,8 @@ Definition ex_ops : list (op * tape_state) :=
                        (65, Some 1100000); (83, Some 0); (65, Some 1150000); (83, Some 0); (65, Some 1150000); (83, Some 0);
                        (65, Some 1150000); (70, Some 169000); (83, Some 0); (65, Some 1150000); (70, Some 172000);
                        (83, Some 0); (65, Some 1150000);
-                       (70, Some 172500); (83, Some 0); (65, Some 900000); (70, Some 175000); (83, Some 0); (65, Some 900000)]);
+                       (70, Some 172500); (83, Some 0); (65, Some 900000); (70, Some 175000); (83, Some 0); (65, Some 900000);
+                       (70, Some 170000)]);   (* check_fee_after_change *)
     (OpBuild, tp [(70, Some 170000); (84, Some 0)]) ].
 
 Example scenario_example :
